@@ -100,8 +100,8 @@ Lemma bcount_spec : forall cs items segs done,
   match bcount (items, segs, done) cs with
   | Ok (items', segs', done') =>
       items' + bsum done' = items + bsum done + bsum cs /\ (segs' = 0 -> items' = 0)
-  | Err => False
-  | Panic => pow64 <= items + bsum cs
+  | Err => pow64 <= items + bsum cs
+  | Panic => False
   end.
 Proof.
   induction cs as [|c t IH]; intros items segs done Hz.
@@ -110,11 +110,11 @@ Proof.
     destruct (bcount1 (items, segs, done) c) as [st1| |] eqn:E1; cbn [bind].
     + apply bcount1_inv in E1. destruct E1 as (i1 & s1 & d1 & -> & P1 & P2 & P3 & P4).
       specialize (IH i1 s1 d1 P3).
-      destruct (bcount (i1, s1, d1) t) as [[[i2 s2] d2]| |]; [|exact IH|lia].
+      destruct (bcount (i1, s1, d1) t) as [[[i2 s2] d2]| |]; [|lia|exact IH].
       destruct IH as [Q1 Q2]. split; [lia|exact Q2].
-    + unfold bcount1 in E1. destruct (pow64 <=? items + c); [discriminate|].
-      destruct (bool_target <=? segs + 1); discriminate.
     + unfold bcount1 in E1. destruct (pow64 <=? items + c) eqn:E; [lia|].
+      destruct (bool_target <=? segs + 1); discriminate.
+    + unfold bcount1 in E1. destruct (pow64 <=? items + c); [discriminate|].
       destruct (bool_target <=? segs + 1); discriminate.
 Qed.
 
@@ -122,7 +122,7 @@ Lemma bcount_ok cs : bsum cs < pow64 ->
   exists st, bcount (0, 0, []) cs = Ok st /\ bfinish st cs = Ok (bruns false cs).
 Proof.
   intros Hs. pose proof (bcount_spec cs 0 0 [] (fun _ => eq_refl)) as H.
-  destruct (bcount (0, 0, []) cs) as [[[i s] d]| |]; [|contradiction|lia].
+  destruct (bcount (0, 0, []) cs) as [[[i s] d]| |]; [|lia|contradiction].
   destruct H as [Q1 Q2]. eexists. split; [reflexivity|]. unfold bfinish.
   unfold bsum at 2 in Q1. cbn [fold_right] in Q1.
   destruct (0 <? s) eqn:E.
@@ -265,7 +265,7 @@ Proof.
   destruct (bcount (0, 0, []) cs) as [[[i s] d]| |] eqn:Ec; cbn [bind]; try discriminate.
   destruct t; try discriminate. unfold bfinish.
   destruct Hc as [Q1 Q2]. unfold bsum at 2 in Q1. cbn [fold_right] in Q1.
-  assert (Hsum : forall X, (if pow64 <=? bsum (if 0 <? s then i :: d else d) then Panic else Ok X) = Ok rs ->
+  assert (Hsum : forall X, (if pow64 <=? bsum (if 0 <? s then i :: d else d) then Err else Ok X) = Ok rs ->
                  X = rs /\ bsum cs < pow64).
   { intros X. destruct (0 <? s) eqn:E.
     - unfold bsum at 1. cbn [fold_right]. fold (bsum d).
@@ -312,19 +312,12 @@ Proof.
   intros Hwf H. destruct (bool_load_canonical b rs Hwf H) as (_ & [v Ha] & _). eapply bgroup_bexpand; eauto.
 Qed.
 
-(* T4: the only panic *)
-Theorem bool_load_panic b : bool_load b = Panic -> pow64 <= bool_declared b.
+(* T4: never panics *)
+Theorem bool_load_no_panic b : bool_load b <> Panic.
 Proof.
-  unfold bool_load, bool_load_counts, bool_declared.
-  destruct (bool_raw (S (length b)) true b) as [cs t]. cbn [fst].
+  unfold bool_load, bool_load_counts.
+  destruct (bool_raw (S (length b)) true b) as [cs t].
   pose proof (bcount_spec cs 0 0 [] (fun _ => eq_refl)) as Hc.
-  destruct (bcount (0, 0, []) cs) as [[[i s] d]| |]; cbn [bind]; try contradiction.
-  - destruct Hc as [Q1 Q2]. unfold bsum at 2 in Q1. cbn [fold_right] in Q1.
-    destruct t; [|discriminate]. unfold bfinish.
-    destruct (0 <? s) eqn:E.
-    + unfold bsum at 1. cbn [fold_right]. fold (bsum d).
-      destruct (pow64 <=? i + bsum d) eqn:E2; [intros _; lia|discriminate].
-    + assert (i = 0) by (apply Q2; lia).
-      destruct (pow64 <=? bsum d) eqn:E2; [intros _; lia|discriminate].
-  - intros _. lia.
+  destruct (bcount (0, 0, []) cs) as [[[i s] d]| |]; cbn [bind]; [|discriminate|contradiction].
+  destruct t; [|discriminate]. unfold bfinish. destruct (pow64 <=? _); discriminate.
 Qed.
